@@ -144,6 +144,8 @@ def _refute(ctx, name, bad):
     if not ctx.symbolic:
         ctx.check(name, bad)
         return
+    if ctx.engine.dry:
+        return
     import z3
     t = core.tobool3(bad)
     ctx.solver.set('timeout', 3000)
